@@ -99,6 +99,43 @@ func (a *agg) add(r *runResult) {
 	}
 }
 
+// capCounts keeps the n most frequent entries of a histogram and folds the rest into one line, so that an
+// evidence file stays readable when a dimension (a fault position, say) has thousands of values.
+func capCounts(m map[string]int, n int) map[string]int {
+	if len(m) <= n {
+		return m
+	}
+	keys := make([]string, 0, len(m))
+	for k := range m {
+		keys = append(keys, k)
+	}
+	sort.Slice(keys, func(i, j int) bool {
+		if m[keys[i]] != m[keys[j]] {
+			return m[keys[i]] > m[keys[j]]
+		}
+		return keys[i] < keys[j]
+	})
+	out := map[string]int{}
+	rest := 0
+	for i, k := range keys {
+		if i < n {
+			out[k] = m[k]
+		} else {
+			rest += m[k]
+		}
+	}
+	out[fmt.Sprintf("(%d other values, together)", len(keys)-n)] = rest
+	return out
+}
+
+func capParams(p map[string]map[string]int, n int) map[string]map[string]int {
+	out := map[string]map[string]int{}
+	for k, m := range p {
+		out[k] = capCounts(m, n)
+	}
+	return out
+}
+
 func hexVal(c byte) byte {
 	switch {
 	case c >= '0' && c <= '9':
@@ -173,10 +210,10 @@ func (a *agg) write(sc *scratch, cfg *propCfg, tier string, seed uint64, wall, b
 		"runs_per_hour":        int(float64(a.runs) / hours),
 		"seeds":                []uint64{seed},
 		"simulated_time_s":     float64(a.fakeNS) / 1e9,
-		"faults_fired":         a.faults,
-		"rare_condition_probes": a.probes,
+		"faults_fired":         capCounts(a.faults, 120),
+		"rare_condition_probes": capCounts(a.probes, 120),
 		"scheduler_totals":     a.stats,
-		"configurations":       a.params,
+		"configurations":       capParams(a.params, 40),
 		"verdicts":             a.verdicts,
 		"inconclusive_runs":    a.inconclusive,
 		"harness_trouble_runs": a.trouble,
